@@ -1,11 +1,17 @@
 package main
 
 import (
+	"context"
+	"encoding/json"
 	"errors"
 	"fmt"
 	"github.com/mdlayher/packet"
 	"math/rand"
 	"net"
+	"os"
+	"os/exec"
+	"runtime/debug"
+	"strconv"
 	"strings"
 	"time"
 
@@ -98,6 +104,84 @@ func readTimed(c net.PacketConn, b []byte) (n int, addr net.Addr, err error, hun
 		rawHangs++
 		return 0, nil, errors.New("read did not return"), true
 	}
+}
+
+// ---- one connection that has been up for a long time: tens of thousands of frames that are not for it go by (other
+// ports, other protocols), then its own. Run in a child process with a goroutine stack limit of 8 MB: whatever the reader
+// keeps per skipped frame - a counter, a stack frame - has that long to show.
+
+// longConn produces n foreign frames and then one frame for port 68
+type longConn struct {
+	n, i int
+	own  []byte
+}
+
+func (c *longConn) ReadFrom(b []byte) (int, net.Addr, error) {
+	c.i++
+	if c.i <= c.n {
+		f := []byte{0x45, 0, 0, 30, byte(c.i >> 8), byte(c.i), 0, 0, 64, 17, 0, 0, 10, 0, 0, 9, 255, 255, 255, 255, 0, 67, byte(7 + c.i%50), byte(c.i), 0, 10, 0, 0, 'n', 'o'}
+		if c.i%3 == 0 {
+			f[9] = 6 // not UDP
+		}
+		return copy(b, f), &net.IPAddr{}, nil
+	}
+	if c.i == c.n+1 {
+		return copy(b, c.own), &net.IPAddr{}, nil
+	}
+	return 0, nil, errScriptEnd
+}
+func (c *longConn) WriteTo(b []byte, a net.Addr) (int, error) { return len(b), nil }
+func (c *longConn) Close() error                              { return nil }
+func (c *longConn) LocalAddr() net.Addr                       { return &net.IPAddr{} }
+func (c *longConn) SetDeadline(time.Time) error               { return nil }
+func (c *longConn) SetReadDeadline(time.Time) error           { return nil }
+func (c *longConn) SetWriteDeadline(time.Time) error          { return nil }
+
+func rawLongMain(arg string) {
+	debug.SetMaxStack(8 << 20)
+	n, _ := strconv.Atoi(arg)
+	own := []byte{0x45, 0, 0, 32, 0, 1, 0, 0, 64, 17, 0, 0, 10, 0, 0, 9, 255, 255, 255, 255, 0, 67, 0, 68, 0, 12, 0, 0, 'm', 'i', 'n', 'e'}
+	c := nclient4.NewBroadcastUDPConn(&longConn{n: n, own: own}, &net.UDPAddr{Port: 68})
+	res := map[string]any{"got": 0, "end": false, "payload": []int{}}
+	func() {
+		defer func() {
+			if r := recover(); r != nil {
+				res["panic"] = fmt.Sprint(r)
+			}
+		}()
+		b := make([]byte, 100)
+		k, _, err := c.ReadFrom(b)
+		if err == nil {
+			res["got"], res["payload"] = 1, B(b[:k])
+			_, _, err = c.ReadFrom(b)
+		}
+		res["end"] = errors.Is(err, errScriptEnd)
+	}()
+	out, _ := json.Marshal(res)
+	os.Stdout.Write(append([]byte("RESULT "), out...))
+}
+
+// rawLong runs rawLongMain in a child process and reports what it saw (a child that dies is reported as a panic)
+func rawLong(n int) map[string]any {
+	ctx, cancel := context.WithTimeout(context.Background(), 120*time.Second)
+	defer cancel()
+	outb, err := exec.CommandContext(ctx, os.Args[0], "rawlong", strconv.Itoa(n)).CombinedOutput()
+	text := string(outb)
+	rec := map[string]any{"op": "RLong", "n": n, "got": 0, "end": false, "payload": []int{}}
+	if i := strings.LastIndex(text, "RESULT "); i >= 0 && err == nil {
+		var r map[string]any
+		if json.Unmarshal(outb[i+7:], &r) == nil {
+			for k, v := range r {
+				rec[k] = v
+			}
+			return rec
+		}
+	}
+	if len(text) > 300 {
+		text = text[:300]
+	}
+	rec["panic"] = "the process reading the frames died: " + fmt.Sprint(err) + ": " + strings.Join(strings.Fields(text), " ")
+	return rec
 }
 
 func endpoint(ip net.IP, port int) map[string]any {
@@ -493,6 +577,10 @@ func genC18(o *Out, rng *rand.Rand, tier string) {
 				o.Emit(rec, "read-exact-buffer", append([]byte{byte(ihl), byte(pad), byte(plen), byte(plen >> 8)}, f...), true)
 			}
 		}
+	}
+	// ---- read direction: a connection that has been up for a long time
+	for _, cnt := range []int{1000, 70000, 400000} {
+		o.Emit(rawLong(cnt), "read-after-many-foreign-frames", []byte(fmt.Sprint("rlong", cnt)), true)
 	}
 	// ---- read direction: sequences of frames
 	for i := 0; i < nR && rawHangs < 3; i++ { // (every stuck read leaves a goroutine spinning: three are evidence enough)
